@@ -1,5 +1,6 @@
 import Resolvo.Props.C01
 import Resolvo.Props.C02
+import Resolvo.MDet.CheckedProofs
 /-!
 # C14 — soft requirements are best-effort and never harm the hard problem
 
@@ -26,5 +27,42 @@ theorem never_error (U : Universe) (P : Problem) (history : List Resolvo.Abs.Eve
   cases hf : st.failed.isSome with
   | false => rfl
   | true => exact absurd hs (Resolvo.C02.unsat_certified U P history st hacc hf)
+
+/-! ## the sentences of C14 for the checked model -/
+
+/-- **never an error**: adding soft requirements never turns a solvable problem into `Unsolvable` (checked model,
+    every universe / problem / list of soft solvables in any order / solver state / fuel) -/
+theorem soft_never_error (U : Universe) (P : Problem) (fuel : Nat) (s : MDet.S) (hs : Solvable U P) :
+    ∀ c, (MDet.solveChecked U P fuel s).1 ≠ .unsat c :=
+  MDet.solveChecked_soft_never_error U P fuel s hs
+
+/-- **never invalidates the result**: the returned set satisfies C01 for the hard requirements and for every accepted
+    soft solvable — its dependencies are installed, all constraints hold, Unknown-dependency solvables are rejected, one
+    solvable per package; only the accepted soft solvables themselves are exempt from their package's lock / exclusion -/
+theorem soft_result_valid (U : Universe) (P : Problem) (fuel : Nat) (s : MDet.S) (sol : List Nat)
+    (h : (MDet.solveChecked U P fuel s).1 = .ok sol) :
+    Valid U P sol (MDet.exemptOf P sol) ∧ ∀ x ∈ MDet.exemptOf P sol, x ∈ P.soft ∧ x ∈ sol := by
+  refine ⟨MDet.solveChecked_ok_valid U P fuel s sol h, ?_⟩
+  intro x hx
+  unfold MDet.exemptOf at hx
+  obtain ⟨h1, h2⟩ := List.mem_filter.mp hx
+  exact ⟨h1, List.contains_iff_mem.mp h2⟩
+
+/-- the oracle of the third sentence is sound: when it says that the soft solvable `s` could have been added, the
+    extension it exhibits contains `s`, touches nothing that is installed and keeps the solution valid -/
+theorem softInstallable_sound (U : Universe) (P : Problem) (sel exempt : List Nat) (s : Nat) (ext : List Nat)
+    (h : softInstallable U P sel exempt s = some ext) : Valid U P (sel ++ ext) exempt ∧ s ∉ sel := by
+  unfold softInstallable at h
+  split at h
+  · cases h
+  · next hc =>
+    split at h
+    · cases h
+    · simp only [] at h
+      split at h
+      · cases h
+      · split at h
+        · next hv => cases h; exact ⟨(validB_iff _ _ _ _).mp hv, fun hm => hc (by simp; exact Or.inl (Or.inl hm))⟩
+        · cases h
 
 end Resolvo.C14
